@@ -10,6 +10,8 @@ import (
 	"fmt"
 	"io"
 	"log"
+	"net/http"
+	"net/http/httptest"
 	"net/netip"
 	"sort"
 	"strconv"
@@ -21,11 +23,14 @@ import (
 	"github.com/danielgtaylor/huma/v2/sse"
 	gqdist "github.com/els0r/goProbe/v4/cmd/global-query/pkg/distributed"
 	"github.com/els0r/goProbe/v4/pkg/api"
+	"github.com/els0r/goProbe/v4/pkg/api/goprobe/client"
+	pkgdist "github.com/els0r/goProbe/v4/pkg/distributed"
 	"github.com/els0r/goProbe/v4/pkg/distributed/hosts"
 	"github.com/els0r/goProbe/v4/pkg/query"
 	"github.com/els0r/goProbe/v4/pkg/results"
 	"github.com/els0r/goProbe/v4/pkg/types"
 	"github.com/els0r/goProbe/v4/pkg/types/workload"
+	"github.com/els0r/goProbe/v4/plugins/querier/apiclient"
 )
 
 // ---------------------------------------------------------------- input
@@ -52,6 +57,7 @@ type statusIn struct {
 }
 type hostIn struct {
 	Host      string     `json:"host"`
+	Kind      int        `json:"kind,omitempty"`      // api cases: 0 configured+alive, 1 configured+down, 2 not configured
 	Err       string     `json:"err,omitempty"`       // non-empty: the reply carries an error
 	ErrInner  string     `json:"err_inner,omitempty"` // non-empty: Err wraps this error (%w)
 	Statuses  []statusIn `json:"statuses,omitempty"`
@@ -74,6 +80,7 @@ type input struct {
 	Asc    bool     `json:"asc"`
 	Num    uint64   `json:"num"`
 	Hosts  []hostIn `json:"hosts"`
+	Api    bool     `json:"api,omitempty"` // true: the REAL apiclient querier against loopback HTTP servers
 	Res    string   `json:"res,omitempty"` // time resolution ("" = default 5m, "10m", "1h"); effective for time queries
 	NRand  int      `json:"n_rand"`        // > 5 hosts: number of PRNG orders
 	OSeed  uint64   `json:"oseed"`
@@ -372,15 +379,54 @@ func hand(i int) *input {
 			{Host: "h1", Statuses: st("h1", "empty"), First: 1699999000, Last: 1700000700},
 			{Host: "h2", Statuses: st("h2", "ok"), First: 1699999000, Last: 1700000700, Rows: []rowIn{{K: kb, C: [4]uint64{4, 0, 1, 0}}, {K: kc, C: [4]uint64{8, 0, 1, 0}}}, Hits: 2},
 			{Host: "h3", Err: "timeout"}}
+	case 10, 11, 12: // real API client querier: configured+alive, configured+down, not configured
+		alive := hostIn{Host: "alive", Statuses: st("alive", "ok"), First: 1712912400, Last: 1712916000, Ifaces: []string{"eth0"},
+			Rows: []rowIn{{K: k1, C: [4]uint64{10, 0, 1, 0}}}, Totals: [4]uint64{10, 0, 1, 0}, Hits: 1}
+		down := hostIn{Host: "down", Kind: 1, Err: errDown}
+		ghost := hostIn{Host: "ghost", Kind: 2, Err: errUnconfigured}
+		base.Api = true
+		base.Hosts = [][]hostIn{{alive, down, ghost}, {ghost, alive}, {ghost}}[i-10]
 	default:
 		return nil
 	}
 	return &base
 }
 
+const errDown = "down-error" // the message of an unreachable host names the port: normalised by project
+const errUnconfigured = "couldn't find endpoint configuration for host"
+
+// genAPI: host lists mixing configured+alive, configured+down and unconfigured hosts for the real querier
+func genAPI(r *vhlib.Rand) *input {
+	in := &input{Api: true, Query: "sip,dip,dport,proto", SortBy: vhlib.Pick(r, []string{"bytes", "packets"}), Asc: r.Chance(30), Num: 1000, OSeed: r.U64()}
+	pool := genKeyPool(r, false, false)
+	for i := range pool { // a *time.Location does not survive JSON: rows without timestamp only
+		pool[i].Inst, pool[i].Zone = zeroT, 0
+	}
+	n := 1 + r.Intn(4)
+	withDown := r.Chance(6)
+	for j := 0; j < n; j++ {
+		h := genHost(r, j, pool, 3)
+		h.Err, h.ErrInner = "", ""
+		switch {
+		case j == 0 && withDown: // the real client retries a dead endpoint for 7 s: at most one such host, rarely
+			h = hostIn{Host: h.Host, Kind: 1, Err: errDown}
+		case r.Chance(40):
+			h = hostIn{Host: h.Host, Kind: 2, Err: errUnconfigured}
+		}
+		if h.Kind == 0 && h.Statuses == nil {
+			h.Statuses = []statusIn{{H: h.Host, Code: "ok"}}
+		}
+		in.Hosts = append(in.Hosts, h)
+	}
+	return in
+}
+
 func gen(r *vhlib.Rand, i int, o vhlib.Opts) any {
 	if h := hand(i); h != nil {
 		return h
+	}
+	if r.Chance(12) {
+		return genAPI(r)
 	}
 	in := &input{SortBy: vhlib.Pick(r, []string{"bytes", "packets"}), Asc: r.Chance(30), OSeed: r.U64()}
 	switch r.Intn(4) {
@@ -483,6 +529,52 @@ func (m *mockQuerier) Query(_ context.Context, _ hosts.Hosts, _ *query.Args) (<-
 	return rc, kc
 }
 
+// apiEnv: one loopback HTTP server per configured+alive host serving its result as JSON, a closed port for
+// every configured+down host, no endpoint for the others; one runner => replies arrive in host list order
+type apiEnv struct {
+	servers []*httptest.Server
+	querier *apiclient.APIClientQuerier
+}
+
+var downHosts = map[string]bool{}
+
+func setupAPI(in *input) (*apiEnv, error) {
+	env := &apiEnv{querier: &apiclient.APIClientQuerier{APIEndpoints: map[string]*client.Config{}, MaxConcurrent: 1}}
+	downHosts = map[string]bool{}
+	for i := range in.Hosts {
+		h := &in.Hosts[i]
+		switch h.Kind {
+		case 0:
+			body, err := json.Marshal(mkResult(in, h))
+			if err != nil {
+				return nil, err
+			}
+			srv := httptest.NewServer(http.HandlerFunc(func(w http.ResponseWriter, r *http.Request) {
+				if r.URL.Path != api.QueryRoute {
+					http.NotFound(w, r)
+					return
+				}
+				w.Header().Set("Content-Type", "application/json")
+				_, _ = w.Write(body)
+			}))
+			env.servers = append(env.servers, srv)
+			env.querier.APIEndpoints[h.Host] = &client.Config{Addr: strings.TrimPrefix(srv.URL, "http://"), RequestTimeout: 20 * time.Second}
+		case 1:
+			dead := httptest.NewServer(http.NotFoundHandler())
+			addr := strings.TrimPrefix(dead.URL, "http://")
+			dead.Close()
+			env.querier.APIEndpoints[h.Host] = &client.Config{Addr: addr, RequestTimeout: 20 * time.Second}
+			downHosts[h.Host] = true
+		}
+	}
+	return env, nil
+}
+func (e *apiEnv) close() {
+	for _, s := range e.servers {
+		s.Close()
+	}
+}
+
 type listResolver struct{ hs hosts.Hosts }
 
 func (l *listResolver) Resolve(context.Context, string) (hosts.Hosts, error) { return l.hs, nil }
@@ -566,7 +658,11 @@ func project(res *results.Result, tied bool) obs {
 		sort.SliceStable(o.Rows, func(i, j int) bool { return keyLess(o.Rows[i].K, o.Rows[j].K) })
 	}
 	for h, s := range res.HostsStatuses {
-		o.Statuses = append(o.Statuses, statusIn{H: h, Code: string(s.Code), Msg: s.Message})
+		msg := s.Message
+		if downHosts[h] && s.Code == types.StatusError && msg != "" {
+			msg = errDown
+		}
+		o.Statuses = append(o.Statuses, statusIn{H: h, Code: string(s.Code), Msg: msg})
 	}
 	sort.Slice(o.Statuses, func(i, j int) bool { return o.Statuses[i].H < o.Statuses[j].H })
 	o.Ifaces = append([]string(nil), res.Summary.Interfaces...)
@@ -609,22 +705,32 @@ type observed struct {
 	Stmt      [5]int64  `json:"stmt"`
 }
 
-func runOrder(in *input, order []int, tied bool) (variant, error) {
+func runOrder(in *input, order []int, tied bool, env *apiEnv) (variant, error) {
 	v := variant{Order: order}
 	hs := make(hosts.Hosts, len(in.Hosts))
 	for i, h := range in.Hosts {
 		hs[i] = h.Host
 	}
-	rm := hosts.NewResolverMap()
-	rm.Set("string", &listResolver{hs: hs})
-	replies := func() []*results.Result {
+	if env != nil { // the real querier works through the resolved host list in its order
+		for i, ix := range order {
+			hs[i] = in.Hosts[ix].Host
+		}
+	}
+	querier := func() pkgdist.Querier {
+		if env != nil {
+			return env.querier
+		}
 		out := make([]*results.Result, len(order))
 		for i, ix := range order {
 			out[i] = mkResult(in, &in.Hosts[ix])
 		}
-		return out
+		return &mockQuerier{replies: out}
 	}
-	res, err := gqdist.NewQueryRunner(rm, &mockQuerier{replies: replies()}).Run(context.Background(), mkArgs(in))
+	rm := hosts.NewResolverMap()
+	rm.Set("string", &listResolver{hs: hs})
+	ctx, cancel := context.WithTimeout(context.Background(), 120*time.Second) // watchdog only
+	defer cancel()
+	res, err := gqdist.NewQueryRunner(rm, querier()).Run(ctx, mkArgs(in))
 	if err != nil {
 		return v, err
 	}
@@ -635,7 +741,7 @@ func runOrder(in *input, order []int, tied bool) (variant, error) {
 		}
 		return nil
 	}
-	res, err = gqdist.NewQueryRunner(rm, &mockQuerier{replies: replies()}).RunStreaming(context.Background(), mkArgs(in), sse.Sender(send))
+	res, err = gqdist.NewQueryRunner(rm, querier()).RunStreaming(ctx, mkArgs(in), sse.Sender(send))
 	if err != nil {
 		return v, err
 	}
@@ -667,6 +773,15 @@ func permutations(n int) [][]int {
 
 func orders(in *input) [][]int {
 	n := len(in.Hosts)
+	for _, h := range in.Hosts {
+		if in.Api && h.Kind == 1 && n > 1 { // every request to a dead endpoint costs 7 s of client retries
+			id, rev := make([]int, n), make([]int, n)
+			for i := range id {
+				id[i], rev[i] = i, n-1-i
+			}
+			return [][]int{id, rev}
+		}
+	}
 	if n <= 5 {
 		ps := permutations(n)
 		sort.Slice(ps, func(i, j int) bool { // identity first, deterministic order
@@ -823,11 +938,25 @@ func run(raw json.RawMessage, o vhlib.Opts) (*vhlib.Case, error) {
 	}
 	ords := orders(&in)
 	ob.NOrders = len(ords)
+	var env *apiEnv
+	downHosts = map[string]bool{}
+	if in.Api {
+		for _, h := range in.Hosts {
+			if (h.Kind == 0) != (h.Err == "") || h.ErrInner != "" || h.Kind < 0 || h.Kind > 2 ||
+				(h.Kind == 1 && h.Err != errDown) || (h.Kind == 2 && h.Err != errUnconfigured) {
+				return nil, fmt.Errorf("api host outside the harness domain")
+			}
+		}
+		if env, err = setupAPI(&in); err != nil {
+			return nil, err
+		}
+		defer env.close()
+	}
 	index := map[string]int{}
 	var runErr error
 	panicked, msg := vhlib.Recover(func() {
 		for _, ord := range ords {
-			v, err := runOrder(&in, ord, ob.Tied)
+			v, err := runOrder(&in, ord, ob.Tied, env)
 			if err != nil {
 				runErr = err
 				return
@@ -914,6 +1043,7 @@ func run(raw json.RawMessage, o vhlib.Opts) (*vhlib.Case, error) {
 	tag(uint64(len(keys)) > stmt.NumResults, "limit-cuts")
 	tag(strings.HasPrefix(in.Query, "time"), "time-query")
 	tag(bin > 0, "time-binning:"+in.Res)
+	tag(in.Api, "real-apiclient-querier")
 	tag(ob.Class != "ok", "class:"+ob.Class)
 	tag(ob.NDistinct > 1, "order-dependent")
 	c.Tags = append(c.Tags, "sort:"+stmt.SortBy.String()+"/"+stmt.Direction.String())
